@@ -32,6 +32,8 @@ enum Class {
 }
 
 struct D {
+    /// all three apps named, in every order, each offered an update or not
+    multi: bool,
     app_ids: Vec<String>,
     max_len: usize,
     cup: bool,
@@ -54,6 +56,17 @@ fn status(i: usize) -> Uc {
 
 impl D {
     fn choose_doc(&mut self, w: &Inner) -> Vec<AppDoc> {
+        if self.multi {
+            const P: [[usize; 3]; 6] = [[0, 1, 2], [1, 0, 2], [0, 2, 1], [2, 0, 1], [1, 2, 0], [2, 1, 0]];
+            let perm = P[w.choose("doc.order", 6)];
+            return perm
+                .iter()
+                .map(|&i| {
+                    let st = if w.choose("doc.offered", 2) == 0 { Uc::OkManifest("5.6.7.8".into()) } else { Uc::NoUpdate };
+                    AppDoc::new(&self.app_ids[i], st)
+                })
+                .collect();
+        }
         let mut pool: Vec<String> = self.app_ids.clone();
         pool.push("app-X".into());
         let len = w.choose("doc.len", self.max_len.min(pool.len()) + 1);
@@ -135,11 +148,11 @@ impl Director for D {
     }
 }
 
-fn run_one(ctx: &RunCtx, tier: Tier, cup: bool) -> RunOut {
+fn run_one(ctx: &RunCtx, tier: Tier, cup: bool, multi: bool) -> RunOut {
     let max_apps = if cup { 1 } else { tier.pick(2, 3) };
-    let n_apps = 1 + choose("n_apps", max_apps);
+    let n_apps = if multi { 3 } else { 1 + choose("n_apps", max_apps) };
     let mode = [Mode::Oneshot, Mode::Start][choose("mode", 2)];
-    let bad_url = !cup && choose("bad_url", 2) == 1;
+    let bad_url = !cup && !multi && choose("bad_url", 2) == 1;
     let ids: Vec<String> = ["app-A", "app-B", "app-C"][..n_apps]
         .iter()
         .map(|s| s.to_string())
@@ -158,6 +171,7 @@ fn run_one(ctx: &RunCtx, tier: Tier, cup: bool) -> RunOut {
         s.blocking = Blocking::timers_only();
     }
     let d = D {
+        multi,
         app_ids: ids.clone(),
         max_len: if cup { 1 } else { tier.pick(2, 3) },
         cup,
@@ -608,14 +622,20 @@ fn parts(tier: Tier) -> Vec<PartDef> {
                    "classes": ["parsed","transport","http-status","unparseable","bad service url"], "policy": 3, "plan": 2,
                    "installer_per_app": 3, "reboot_needed": 2, "reboot_allowed": ["t","f,t"], "modes": ["oneshot","start (1 iteration)"],
                    "exploration": "full product"}),
-            move |ctx| run_one(ctx, tier, false),
+            move |ctx| run_one(ctx, tier, false, false),
+        ),
+        PartDef::new(
+            "three-apps-any-offered",
+            Cfg::new("C04/three-apps-any-offered"),
+            json!({"apps": 3, "response": "all three apps in every order, each offered an update or not", "policy": 3, "plan": 2, "installer_per_offered_app": 3, "reboot": "as in flow-nocup", "modes": 2, "exploration": "full product"}),
+            move |ctx| run_one(ctx, tier, false, true),
         ),
         PartDef::new(
             "flow-cup",
             Cfg::new("C04/flow-cup"),
             json!({"apps": 1, "response_len": "0..1", "classes": ["parsed","forged","unparseable","transport"], "cup": "real StandardCupv2Handler, independent signer",
                    "exploration": "full product"}),
-            move |ctx| run_one(ctx, tier, true),
+            move |ctx| run_one(ctx, tier, true, false),
         ),
     ]
 }
